@@ -120,7 +120,10 @@ var c18Fixtures = []string{"flat24", "nest"}
 func TestC18(t *testing.T) { rapid.Check(t, propC18) }
 
 // FuzzC18: the same property driven by Go's coverage-guided fuzzer (thorough tier).
-func FuzzC18(f *testing.F) { f.Fuzz(rapid.MakeFuzz(propC18)) }
+func FuzzC18(f *testing.F) {
+	fuzzSeeds(f)
+	f.Fuzz(rapid.MakeFuzz(propC18))
+}
 
 func propC18(t *rapid.T) {
 	cfg := foreignCfg{fixtures: fixturesFromEnv(c18Fixtures), maxRecs: envInt("VERIF_MAXRECS", 50), gen: vt.DefaultGen, plain: true}
